@@ -177,8 +177,9 @@ class Fragment(AbstractApplication):
             rctr = BundleContainer()
             rctr.bundle.primary = reassm.first_frag.primary.copy()
             rctr.bundle.primary.bundle_flags &= ~PrimaryBlock.Flag.IS_FRAGMENT
-            rctr.bundle.primary.crc_type = AbstractBlock.CrcType.NONE
-            rctr.bundle.primary.crc_value = None
+            # otherwise as originated: the CRC type is part of what
+            # a security block may cover, only its value is refreshed
+            rctr.bundle.primary.update_crc()
 
             LOGGER.debug('Copying %d first-fragment blocks', len(reassm.first_frag.blocks))
             for blk in reassm.first_frag.blocks:
